@@ -8,11 +8,13 @@ package resources
 //@   props C19
 //@   requires t != nil
 //@   modifies *
+//@   usestable
 //@   ensures [kept] result == 0
 //@ end
 
 //@ func zzBad3
 //@   props C19
 //@   modifies *
+//@   usestable
 //@   ensures [mustfail3] result == 0
 //@ end
